@@ -78,7 +78,11 @@ func (c *fileCtx) q(pkg int) string {
 	if pkg == c.pkg || pkg < 0 {
 		return ""
 	}
-	return c.imp(c.p.ImportPath(pkg), c.p.Pkgs[pkg].Name) + "."
+	name := c.p.Pkgs[pkg].Name
+	if c.p.AliasImports {
+		name = "al_" + name
+	}
+	return c.imp(c.p.ImportPath(pkg), name) + "."
 }
 
 func (c *fileCtx) pf(format string, args ...interface{}) {
